@@ -262,7 +262,7 @@ func run(c *harness.Ctx, i int) {
 	}
 	leg := []string{"next", "next", "file", "file", "file", "stream", "stream"}[rng.Intn(7)]
 	big := c.Tier == "thorough" && i%2000 == 1
-	if i%700 == 7 {
+	if i%700 == 7 || i%150 == 11 {
 		leg = "cli"
 	}
 	n := 1 + rng.Intn(16)
@@ -285,6 +285,23 @@ func run(c *harness.Ctx, i int) {
 		class = "random-wide-avg"
 		blob = make([]byte, size)
 		rng.Read(blob)
+	}
+	if !big && i%300 == 5 {
+		// the default chunk sizes and zero runs that hold whole chunks of the maximum size: the one chunk desync knows
+		// beforehand (its ID is kept ready, computed when?) - under both digests
+		sz = dsu.Sizes{Min: 16 * 1024, Avg: 64 * 1024, Max: 256 * 1024}
+		n = 1 + rng.Intn(4)
+		pre := make([]byte, rng.Intn(300*1024))
+		rng.Read(pre)
+		post := make([]byte, rng.Intn(100*1024))
+		rng.Read(post)
+		blob = append(append(pre, make([]byte, 256*1024*(1+rng.Intn(3))+rng.Intn(70000))...), post...)
+		size = len(blob)
+		class = "default-sizes-null-chunks"
+		if i%600 == 5 {
+			desync.Digest = desync.SHA256{}
+			sha256 = true
+		}
 	}
 	if !big && leg != "cli" && i%40 == 9 {
 		// runs of one byte value: their window hash is a constant, and for the few avg values whose discriminator divides
@@ -486,8 +503,22 @@ func run(c *harness.Ctx, i int) {
 		blob = dsu.MakeBlob(rng, []string{"mixed", "zero-runs", "repetitive", "zero-runs"}[rng.Intn(4)], int(csz.Max)*(2+rng.Intn(20))+rng.Intn(3000), csz)
 		dsu.WriteFile(name, blob)
 		cmd := exec.Command(cli, args...)
+		readFault := false
+		if st, lerr := exec.LookPath("strace"); lerr == nil && (rng.Intn(2) == 0 || i%150 == 11) {
+			// a read of the input file fails (EIO: a bad sector, a network file system that went away) - the k-th read
+			// of some worker. The command may fail; an index it reports as made describes the whole file all the same.
+			readFault = true
+			k := 1 + rng.Intn(6)
+			cmd = exec.Command(st, append([]string{"-f", "-o", "/dev/null", "-P", name, "-e", "trace=read,pread64", "-e", fmt.Sprintf("inject=read,pread64:error=EIO:when=%d", k), cli}, args...)...)
+			c.Count("cli_runs_with_a_failing_read", 1)
+		}
 		cmd.Env = append(os.Environ(), "HOME="+dir)
 		outb, err := cmd.CombinedOutput()
+		if err != nil && readFault {
+			c.Count("cli_runs_failed_on_a_failing_read", 1)
+			c.NonTrivial("cli|read-fault|n%d|failed", n)
+			return
+		}
 		if err != nil {
 			c.Violation("cli:error", "desync %v: %v\n%s", args, err, outb)
 			return
